@@ -94,6 +94,7 @@ def plan(tier, seed):
             for shape in BAD_SHAPES:
                 specs.append({"hashseed": hs, "nchrom": nchrom, "shape": shape})
         specs.append({"hashseed": hs, "mixed": True})
+        specs.append({"hashseed": hs, "reuse": True})
     return specs
 
 
@@ -174,6 +175,36 @@ def shard_single_shape(res, scratch, spec):
     res.sample({"shape": shape, "chromosomes": nchrom, "example_request": "chr2,chr1"})
 
 
+def shard_reused_outdir(res, scratch):
+    """two-step history in one output directory: first every chromosome is a chain and is written --by-chrom, then the
+    same-named graph is ordered again with one chromosome turned into a non-chain: nothing of it may reach the complete file"""
+    import os
+
+    slots = [("chr1", 0, "hA#1#c"), ("chr2", 40, "hB#1#c"), ("chr3", 80, "hC#1#c")]
+    for shape in BAD_SHAPES:
+        for badi in range(3):
+            goods = [good(*sl) for sl in slots]
+            g1 = gen.merge_graphs([c.g for c in goods])
+            comps = [bad(*slots[i], shape) if i == badi else good(*slots[i]) for i in range(3)]
+            g2 = gen.merge_graphs([c.g for c in comps])
+            for req in ("chr1,chr2,chr3", "chr3,chr2,chr1"):
+                first = oc.run_order(scratch, g1.text(), req, by_chrom=True, tag="hist")
+                run = oc.run_order(scratch, g2.text(), req, by_chrom=False, tag="hist", keep_outdir=True)
+                res.evaluations += 1
+                res.nt(fw.h64(["reuse", shape, badi, req]))
+                res.count("two_step_histories")
+                case = {"gfa": g2.text(), "chromosome_order": req, "by_chrom": False, "root": None, "flip": False, "bad": [comps[badi].chrom],
+                        "earlier_run_in_same_outdir": {"gfa": g1.text(), "by_chrom": True}, "hashseed": int(os.environ.get("PYTHONHASHSEED", "0"))}
+                if first.outcome.kind != "ok":
+                    continue
+                if run.outcome.kind != "ok":
+                    res.fail(f"C18/command-failed:{run.outcome.sig()}", f"[{shape} at {comps[badi].chrom}, output directory reused] {run.outcome.brief()}", case)
+                    continue
+                t = run.gfa("complete")
+                if t is not None and set(rgfa.Graph.parse(t).segs) & set(comps[badi].g.segs):
+                    res.fail("C18/skipped-component-in-complete-file", f"[{shape} at {comps[badi].chrom}] after an earlier --by-chrom run into the same directory, nodes of the skipped component appear in the complete file", case)
+
+
 def shard_mixed(res, scratch):
     """one component of each bad shape together, and the chain-shaped-but-mixed end-to-end join"""
     comps = [bad("chr1", 0, "hA#1#c", "tip-on-scaffold"), good("chr2", 40, "hB#1#c"), bad("chr3", 80, "hC#1#c", "three-articulation-cycle")]
@@ -204,7 +235,9 @@ def shard_mixed(res, scratch):
 
 def run_shard(spec, tier, scratch):
     res = fw.ShardResult()
-    if spec.get("mixed"):
+    if spec.get("reuse"):
+        shard_reused_outdir(res, scratch)
+    elif spec.get("mixed"):
         shard_mixed(res, scratch)
     else:
         shard_single_shape(res, scratch, spec)
@@ -214,6 +247,22 @@ def run_shard(spec, tier, scratch):
 def replay(case, scratch):
     res = fw.ShardResult()
     g = rgfa.Graph.parse(case["gfa"])
+    if case.get("earlier_run_in_same_outdir"):
+        e = case["earlier_run_in_same_outdir"]
+        oc.run_order(scratch, e["gfa"], case["chromosome_order"], by_chrom=True, tag="hist")
+        run = oc.run_order(scratch, case["gfa"], case["chromosome_order"], by_chrom=False, tag="hist", keep_outdir=True)
+        if run.outcome.kind != "ok":
+            res.fail(f"C18/command-failed:{run.outcome.sig()}", run.outcome.brief(), case)
+        else:
+            t = run.gfa("complete")
+            badnodes = set()
+            for comp in rgfa.components(g.adjacency()):
+                names = [g.segs[n].SN for n in comp if g.segs[n].SR == 0]
+                if names and max(set(names), key=names.count) in case["bad"]:
+                    badnodes |= set(comp)
+            if t is not None and set(rgfa.Graph.parse(t).segs) & badnodes:
+                res.fail("C18/skipped-component-in-complete-file", "nodes of the skipped component appear in the complete file", case)
+        return res.failures
     if case.get("joined"):
         run = oc.run_order(scratch, case["gfa"], case["chromosome_order"], by_chrom=True, tag="m")
         if run.outcome.kind not in ("ok", "exit"):
